@@ -686,6 +686,8 @@ impl FilterVertices for AdjacencyMap {
             }
         }
 
+        assert!(!arcs.is_empty(), "a digraph has at least one vertex");
+
         Self { arcs }
     }
 }
